@@ -164,6 +164,21 @@ def _fname(rng, used, spicy):
     raise RuntimeError("no name")
 
 
+_COLLIDING = {}
+
+
+def _colliding_ids(style):
+    """Current SPDX identifiers whose last character occurs in the (alphanumeric) comment marker of `style`."""
+    if not _COLLIDING:
+        ids = sorted(i for i, dep in spdx_lists()["licenses"].items() if not dep)
+        for k, v in style_table().items():
+            pre = v["single"] or (v["multi"][1] if v["multi"] else "")
+            # (an identifier ending in the whole mirrored marker, 'LPPL-1.3c' after Fortran's 'c', is the listed C02 finding
+            # mirrored-prefix-strip-eats-value-tail and is left to C02)
+            _COLLIDING[k] = [i for i in ids if i[-1] in pre and not i.endswith(pre.strip()[::-1])] if pre and any(c.isalnum() for c in pre) else []
+    return _COLLIDING.get(style, [])
+
+
 def gen_recipe(rng, n_files=None, defects=(), spicy=False, global_mode=None, git=False, styles=None, allow_multi_sources=True):
     """Compliant-by-construction tree + the listed injected defects.
 
@@ -194,6 +209,10 @@ def gen_recipe(rng, n_files=None, defects=(), spicy=False, global_mode=None, git
         f = {"path": path, "kind": kind, "style": rng.choice(styles), "multi": rng.random() < 0.3,
              "sources": [{"carrier": carrier, "copyrights": cops, "exprs": exprs,
                           "toml_dir": ""}]}
+        hits = _colliding_ids(f["style"]) if carrier == "header" else []
+        if hits and rng.random() < 0.6:
+            # a comment marker made of letters (dnl, REM, c) and an identifier that ends in one of them
+            f["sources"][0]["exprs"] = [("id", rng.choice(hits))]
         if carrier.startswith("toml") and "/" in path and rng.random() < 0.4:
             # nested REUSE.toml in the file's top directory
             f["sources"][0]["toml_dir"] = path.split("/")[0]
